@@ -239,6 +239,7 @@ def check_node(out, tree, node, snap, full=False, queries=(), sample=(), density
     """Additivity: armi getters of ``node`` against quantities recomputed from the component primitives."""
     C, BARN = _consts()
     obj = node.obj
+    nviol = len(out.violations)
     agg = Agg(tree, node, snap)
     where = "%s %r" % (node.level, obj)
     vol_ok = node.area_ok
@@ -264,8 +265,8 @@ def check_node(out, tree, node, snap, full=False, queries=(), sample=(), density
     em = agg.total_mass()
     out.check(_close(m, em, agg.total_mass_abs()), "additivity/mass-total-%s" % _lvl(node),
               lambda: "%s: getMass()=%r, sum over components of N*V*A/sym %r" % (where, m, em))
-    if not full:
-        return agg
+    if not full or len(out.violations) > nviol:
+        return agg  # (derived quantities of an object whose basic accounting is already off add no information)
     m0 = obj.getMass(None)
     out.check(_close(m0, em, agg.total_mass_abs()), "additivity/mass-total-%s" % _lvl(node),
               lambda: "%s: getMass(None)=%r expected %r" % (where, m0, em))
@@ -322,10 +323,13 @@ def check_node(out, tree, node, snap, full=False, queries=(), sample=(), density
         out.check(not bad, "massfrac/value-%s" % _lvl(node),
                   lambda: "%s: getMassFracs()[%s]=%r, mass ratio %r" % ((where,) + bad[0]))
         for kind, spec in queries:
-            if isinstance(spec, str) and spec in agg.names:
-                g = obj.getMassFrac(spec)
-                out.check(_close(g, agg.mass(spec) / em, agg.mass_abs(spec) / em), "massfrac/value-%s" % _lvl(node),
-                          lambda: "%s: getMassFrac(%s)=%r expected %r" % (where, spec, g, agg.mass(spec) / em))
+            # getMassFrac resolves the specifier once, against the nuclides of this object
+            if _ambiguous(agg.names, spec):
+                continue
+            e = math.fsum(agg.mass(n) for n in _select(agg.names, spec)) / em
+            g = obj.getMassFrac(list(spec) if isinstance(spec, list) else spec)
+            out.check(_close(g, e, 1e-3), "massfrac/selection-%s" % _lvl(node),
+                      lambda: "%s: getMassFrac(%r)=%r, masses give %r" % (where, spec, g, e))
     return agg
 
 
@@ -351,6 +355,10 @@ def _queries(tree, root, snap, qspecs):
                 items.append(e if (q["e"] >> j) & 1 and e is not None else n)
             if q["e"] & 64:
                 items.append("U234" if "U234" not in names else "PU236")  # a name nobody here holds
+            if q["e"] & 32 and _elem(pick[0])[0] is not None:
+                items.append(_elem(pick[0])[0])  # the element of a listed nuclide as well: selections overlap
+            if q["e"] & 16:
+                items.append(items[0])  # the same name twice
             out.append(("list", items))
     return out
 
@@ -718,7 +726,7 @@ def blocks_strategy(tier):
         "blocks": st.lists(_block_spec(), min_size=1, max_size=2),
         "queries": st.lists(_query, min_size=1, max_size=5),
         "sample": st.lists(st.integers(0, 200), min_size=1, max_size=3),
-        "ops": st.one_of(st.just([]), st.lists(_op_strategy(3), min_size=2, max_size=8), st.lists(_op_strategy(3), min_size=4, max_size=8)),
+        "ops": st.one_of(st.lists(_op_strategy(3), min_size=2, max_size=8), st.lists(_op_strategy(3), min_size=4, max_size=8)),
     })
 
 
@@ -895,9 +903,10 @@ def reactors_strategy(tier):
     third = rg.reactor_spec(geoms=("hex", "hex", "hex_corners_up"), symmetries=["third periodic"], max_rings=3, max_blocks=3, min_assems=3)
     full = rg.reactor_spec(geoms=("hex", "hex_corners_up"), symmetries=["full"], max_rings=2, max_blocks=3, min_assems=2)
     cart = rg.reactor_spec(geoms=("cartesian",), max_rings=2, max_blocks=3, min_assems=2)
-    tiny = rg.reactor_spec(max_rings=1, max_blocks=2)
+    tiny = rg.reactor_spec(geoms=("hex", "hex_corners_up", "cartesian"), max_rings=1, max_blocks=2)
+    rzt = rg.rzt_spec(max_r=3, max_theta=3, max_blocks=3)
     return st.fixed_dictionaries({
-        "spec": st.one_of(third, third, third, full, cart, cart, tiny),
+        "spec": st.one_of(third, third, third, full, cart, cart, tiny, rzt),
         "edge": st.booleans(),
         "known": st.just(False) if EXCLUDE_KNOWN.get(SIG_CART_FULL) else st.booleans(),
         "queries": st.lists(_query, min_size=1, max_size=4),
@@ -975,9 +984,9 @@ def reactors_execute(case):
     out.nontrivial = any(s != 1.0 for s in sfs)
     snap = _snapshot(tree)
     # block volume = lattice cell x height / symmetry (every generated block has a derived coolant)
-    P = spec["pitch"]
+    P = spec.get("pitch", 0.0)
     cell = math.sqrt(3.0) / 2.0 * P * P if spec["geom"].startswith("hex") else P * P
-    for bn in tree.by_level["block"]:
+    for bn in tree.by_level["block"] if spec["geom"] != "thetarz" else []:
         tot = math.fsum(snap[l][1] for l in bn.leaves)
         ev = cell * bn.obj.getHeight()
         out.check(_close(tot, ev), "volume/derived-shape-fills-cell",
@@ -1232,13 +1241,13 @@ def conversions_execute(case):
 PARTS = [
     Part("blocks", blocks_execute, strategy=blocks_strategy, budget={"quick": 700, "thorough": 30000}, procs={"quick": 6, "thorough": 16},
          rule="Hypothesis: 1-2 directly built Hex/Cartesian blocks (1-6 components over 12 2-D + 3 3-D shapes, ~44 materials, mult 1..271, "
-              "Tinput/Thot, optional duct + derived coolant) inside a generic Composite, 0-8 composition edits at component/block/group level, "
+              "Tinput/Thot, optional duct + derived coolant) inside a generic Composite, 2-8 composition edits at component/block/group level, "
               "nuclide/element/list selections; oracle: block and group quantities recomputed from component (N,V), shape volume formulae, "
               "read-back/untouched/additivity after every edit; non-trivial = >=3 components with derived shape and mult>1, or the edited "
               "nuclide held by >=2 children"),
     Part("reactors", reactors_execute, strategy=reactors_strategy, budget={"quick": 260, "thorough": 12000}, procs={"quick": 8, "thorough": 16},
-         rule="Hypothesis: blueprint reactors (hex third/full flats/corners-up <=3 rings, Cartesian full/quarter-through-centre, optional edge "
-              "assemblies) x 1-7 edits at component/block/assembly/core level; oracle as for blocks at all four levels with the symmetry "
+         rule="Hypothesis: blueprint reactors (hex third/full flats/corners-up <=3 rings, Cartesian full/quarter-through-centre, theta-R-Z, "
+              "optional edge assemblies) x 2-7 edits at component/block/assembly/core level; oracle as for blocks at all four levels with the symmetry "
               "factor read from getSymmetryFactor and checked against the documented centre/edge rule; non-trivial = a symmetry factor != 1 "
               "occurs or the edited nuclide is held by >=2 children"),
     Part("expansion", expansion_execute, strategy=expansion_strategy, budget={"quick": 150, "thorough": 5000}, procs={"quick": 2, "thorough": 8},
